@@ -35,7 +35,9 @@ theorem dbgInUse_fault_mono (s : Shared) (n : Nat) (site : String) (h : (dbgInUs
   unfold dbgInUse at h; exact ite_setFault_mono s _ _ h
 
 theorem stepNG_fault_mono (s : Shared) (b : Bool) (ng : NG) (h : (stepNG s b ng).1.fault = none) : s.fault = none := by
-  rw [stepNG_fault] at h; exact h
+  rcases stepNG_fault s b ng with e | ⟨e, _⟩
+  · rw [e] at h; exact h
+  · rw [e] at h; exact fault_of_setFault _ _ h
 
 theorem stepCD_fault_mono (s : Shared) (cd : CD) (h : (stepCD s cd).1.fault = none) : s.fault = none := by
   cases cd <;> simp only [stepCD] at h
@@ -70,7 +72,10 @@ theorem decObj_keep (s : Shared) (a : Nat) (f : Fault) (h : s.fault = some f) : 
   simp only [decObj]; (repeat' split) <;> simp [Shared.setFault, h]
 
 theorem stepNG_keep (s : Shared) (b : Bool) (ng : NG) (f : Fault) (h : s.fault = some f) :
-    (stepNG s b ng).1.fault = some f := by rw [stepNG_fault]; exact h
+    (stepNG s b ng).1.fault = some f := by
+  rcases stepNG_fault s b ng with e | ⟨e, _⟩
+  · rw [e]; exact h
+  · rw [e]; exact setFault_fault_of_some _ _ _ h
 
 theorem stepCD_keep (s : Shared) (cd : CD) (f : Fault) (h : s.fault = some f) : (stepCD s cd).1.fault = some f := by
   cases cd <;> simp only [stepCD] <;> (try split) <;> simp [Shared.setFault, h]
